@@ -139,6 +139,45 @@ func report(eng *Engine, prop, tier string, seed int, start time.Time, runs []*R
 		counted++
 	}
 
+	// thorough tier: bounded conformance results for the assumptions this property's proof actually uses
+	var bounded []map[string]interface{}
+	if gConformance != nil {
+		usedAx, usedExt := map[string]bool{}, map[string]bool{}
+		for _, q := range queries {
+			_, used := eng.C.prelude(q.Uses, "")
+			for _, u := range used {
+				if strings.HasPrefix(u, "axiom:") {
+					usedAx[strings.TrimPrefix(u, "axiom:")] = true
+				}
+			}
+		}
+		for _, r := range runs {
+			for _, n := range r.notes {
+				if n.Kind == "extern" {
+					usedExt[n.Msg] = true
+				}
+			}
+		}
+		if gConformance.Error != "" {
+			bounded = append(bounded, map[string]interface{}{"name": "conformance tests", "status": "not run", "why": gConformance.Error})
+		}
+		for _, res := range gConformance.Results {
+			if !((res.Kind == "axiom" && usedAx[res.Name]) || (res.Kind == "extern" && usedExt[res.Name])) {
+				continue
+			}
+			m := map[string]interface{}{"name": res.Kind + " " + res.Name, "status": res.Status, "level": "bounded", "instances": res.Instances + res.Calls}
+			if res.Why != "" {
+				m["why"] = res.Why
+			}
+			bounded = append(bounded, m)
+			if res.Status == "CONTRADICTED" {
+				ce, _ := json.Marshal(res.Counterexample)
+				viols = append(viols, viol{"assumption:" + res.Kind + " " + res.Name, "the real library contradicts this assumed clause on a generated input, so proofs that use it decide nothing: " + string(ce), nil})
+				counted++
+			}
+		}
+	}
+
 	for _, k := range knownHit {
 		fmt.Println(k)
 	}
@@ -311,6 +350,7 @@ func report(eng *Engine, prop, tier string, seed int, start time.Time, runs []*R
 			"obligation_list":          perObl,
 			"vanished_obligations":     vanished,
 			"tool_errors":              toolErrs,
+			"bounded_conformance":      map[string]interface{}{"what": "thorough tier: the assumed extern contracts and axioms used by this property, evaluated against the real libraries on a generated corpus (tools/conformance.py); bounded, not counted as discharged", "results": bounded},
 			"dependency_ring":          map[string]interface{}{"checked": ring(tier, prop), "obligations": depTotal, "discharged": depDischarged, "what": "clauses tagged with other properties only that this property's proof assumes at call sites, and everything those rest on (thorough tier)"},
 		},
 		"assumptions": globalAssume,
